@@ -352,6 +352,39 @@ def run(chk, facts, tier, only=None):
                        where=f"{h['span']['file']}:{stmts[min(i_push)].get('ln')}", ok_detail="find_type; chase_type(body); res.push(id)")
             rec_recv = [root_local(sc, x["recv"]) for x in walk(body) if x.get("k") == "mcall" and x["m"] == "push"]
             chk.expect(all(r is not None and r.kind == "param" for r in rec_recv), "chase_type:pushes-result-list", "chase_type must push onto its result parameter")
+        # (a'') producers of definition lists: each list is filled by chase_type alone, under one visited set that lives as long as the list
+        #       (two visited sets for one list, or lists spliced together, list a definition twice: `const x` declared twice)
+        ct = c.fn("^" + re.escape(AN + "chase_type") + "$")
+        i_seen = next((i for i, p in enumerate(ct["params"]) if "BTreeSet" in str(p.get("ty") or "")), None)
+        i_res = next((i for i, p in enumerate(ct["params"]) if "Vec<" in str(p.get("ty") or "")), None)
+        if i_seen is None or i_res is None:
+            raise AnchorMissing("chase_type: `seen: &mut BTreeSet<_>` / `res: &mut Vec<_>` parameters not found")
+        producers = 0
+        for name in ("chase_actor", "chase_types"):
+            h = c.fn("^" + re.escape(AN + name) + "$")
+            chk.analysed(h["key"])
+            sc = scope(h["key"])
+            tail = unblock(h["body"]["e"]) if h["body"].get("e") else {}
+            R = root_local(sc, tail["args"][0]) if tail.get("k") == "call" and (callee(tail) or "").endswith("Result::Ok") and tail.get("args") else None
+            if R is None or R.kind != "let" or R.init is None or not (callee(unblock(R.init)) or "").endswith("::new"):
+                chk.bad(f"def-list:{name}:single-visited-set", f"{name} must return a list it created empty (`let mut res = Vec::new(); … Ok(res)`)",
+                        where=f"{h['span']['file']}:{h['span']['lo']}")
+                continue
+            producers += 1
+            calls = [x for x in walk(h["body"]) if x.get("k") == "call" and callee(x) == ct["key"]]
+            mine = [x for x in calls if root_local(sc, x["args"][i_res]) is R]
+            other = [x for x in walk(h["body"]) if x.get("k") == "path" and sc.binder_of(x) is R and x is not unblock(tail["args"][0])
+                     and not any(any(y is x for y in walk(cl["args"][i_res])) for cl in mine)]
+            seens = {id(root_local(sc, x["args"][i_seen])): root_local(sc, x["args"][i_seen]) for x in mine}
+            S = list(seens.values())[0] if len(seens) == 1 else None
+            same_block = S is not None and S.kind == "let" and S.init is not None and (callee(unblock(S.init)) or "").endswith("::new") \
+                and sc.parent.get(id(S.ctx)) is sc.parent.get(id(R.ctx))
+            chk.expect(bool(mine) and not other and same_block, f"def-list:{name}:single-visited-set",
+                       f"{name}: the returned definition list must be filled only by chase_type calls that share one visited set created next to the "
+                       f"list (chase_type calls on the list: {len(mine)}, other uses of the list: {len(other)}, one `seen` declared beside it: {same_block}); "
+                       f"otherwise a definition reachable twice is listed twice and the generated module declares it twice",
+                       where=f"{h['span']['file']}:{h['span']['lo']}", ok_detail=f"{len(mine)} chase_type call(s), one visited set, no other writer")
+        chk.floor("producers of definition lists (chase_actor, chase_types)", producers, 2)
         # (a') infer_rec: a name is recursive iff it is referenced before its definition has been passed
         h = c.fn("^" + re.escape(AN + "infer_rec") + "$")
         g = c.fn("^" + re.escape(AN + "infer_rec::go") + "$")
